@@ -222,8 +222,23 @@ def _check(ctx, case):
         extra = {}
         for name in case.get('decoys') or []:
             extra[name] = np.roll(pt, 1, axis=1) ^ 0x5a        # other metadata the trace set happens to carry (all of it is handed to the selection function)
-        ths = dist.ram_ths(samples=samples, plaintext=pt, idx=np.arange(N, dtype='uint32'), **extra)
-        cont = scared.Container(ths, frame=frame, preprocesses=_scared_chain(chain))
+        stored = samples
+        if case.get('big_endian') and samples.dtype.itemsize > 1:
+            stored = samples.astype(samples.dtype.newbyteorder('>'))      # a trace set stored in non-native byte order: same values
+        ths = dist.ram_ths(samples=stored, plaintext=pt, idx=np.arange(N, dtype='uint32'), **extra)
+        if case.get('container_reused'):
+            # the container was used before with another frame / preprocess chain; its documented attributes are then reassigned
+            other_chain = [] if chain[:1] == ['square'] or not chain else ['reverse']
+            cont = scared.Container(ths, frame=None if case['container_reused'] == 'both' else frame, preprocesses=_scared_chain(other_chain))
+            with warnings.catch_warnings():
+                warnings.simplefilter('ignore')
+                for b_ in cont.batches():
+                    b_.samples
+            cont.preprocesses = _scared_chain(chain)
+            if case['container_reused'] == 'both':
+                cont.frame = frame if frame is not None else ...
+        else:
+            cont = scared.Container(ths, frame=frame, preprocesses=_scared_chain(chain))
         start = len(log)
         with warnings.catch_warnings():
             warnings.simplefilter('ignore')
@@ -267,7 +282,7 @@ def _check(ctx, case):
             raise Violation('run #%d: processed_traces = %s, %d traces were given so far' % (ri + 1, an.processed_traces, total), case)
         # (b) results of everything so far
         _check_results(ctx, case, an, np.concatenate(X_all, axis=0), np.concatenate(D_all, axis=0), first_block_data)
-    labels = ['analysis:' + a, 'mode:' + case['mode'], 'batch:' + case['batch'][0]] + (['decoy_metadata'] if case.get('decoys') else []) + [ 'frame:' + case['frame_kind'], 'chain:%d' % len(chain), 'runs:%d' % len(case['runs']),
+    labels = ['analysis:' + a, 'mode:' + case['mode'], 'batch:' + case['batch'][0]] + (['big_endian_samples'] if case.get('big_endian') else []) + (['container_used_before_with_other_settings:' + case['container_reused']] if case.get('container_reused') else []) + (['decoy_metadata'] if case.get('decoys') else []) + [ 'frame:' + case['frame_kind'], 'chain:%d' % len(chain), 'runs:%d' % len(case['runs']),
               'model:' + case['model'], 'prec:' + case['precision']]
     if multi_batch:
         labels.append('multi_batch')
@@ -453,6 +468,10 @@ def cases(draw, analysis, precision, large=False):
     case = {'kind': 'run', 'analysis': analysis, 'mode': mode, 'precision': precision, 'frame': frame, 'frame_kind': fk, 'chain': chain, 'batch': batch,
             'wide': wide, 'decoys': draw(st.lists(st.sampled_from(['data', 'key', 'ciphertext', 'foo']), max_size=2, unique=True)),
             'runs': runs, 'model': model, 'mask': mask, 'words': words, 'partitions': None, 'edges': None}
+    if not large:
+        # trace sets stored in non-native byte order are handled by CPA / DPA (the compiled kernels of the class-based distinguishers refuse them)
+        case['big_endian'] = analysis in ('cpa', 'dpa') and tdt != 'uint8' and draw(st.integers(0, 3)) == 0
+        case['container_reused'] = draw(st.sampled_from(['', '', '', 'preprocesses', 'both']))
     if mode == 'attack':
         ng = draw(st.integers(2, 5))
         case['guesses'] = sorted(set(int(v) for v in g.integers(0, 16, size=ng))) if draw(st.booleans()) else list(range(ng))
